@@ -112,7 +112,7 @@ func runFree(base string, seed int64, idx int) (res *seqResult) {
 		a := w.lLog.Queue().AppendedSeq()
 		return w.fReal.Queue().AppendedSeq() == a && w.lCG.ConsumedSeq() == a && w.lCG.AcknowledgedSeq() == a
 	}
-	deadline := time.Now().Add(90 * time.Second)
+	deadline := time.Now().Add(45 * time.Second)
 	// wedged: the leader is ready, has nothing left to send, its last offer was answered with another index, and the
 	// same happens to one more append. Nothing else will ever happen on this channel: a logical condition, not a timeout.
 	wedged := func() (sendRec, bool) {
@@ -144,7 +144,7 @@ func runFree(base string, seed int64, idx int) (res *seqResult) {
 		}
 		if time.Now().After(deadline) {
 			o := d.observe()
-			res.Fatal = fmt.Sprintf("watchdog: free run %d did not converge within 90s after the last fault: %s msg=%q [%s]", idx, o.String(), o.Msg, strings.Join(script, " "))
+			res.Fatal = fmt.Sprintf("watchdog: free run %d did not converge within 45s after the last fault: %s msg=%q [%s]", idx, o.String(), o.Msg, strings.Join(script, " "))
 			return res
 		}
 		time.Sleep(200 * time.Microsecond)
